@@ -136,6 +136,22 @@ def run(ctx) -> None:
         if has_sub and rec is not True:
             okn = False
     ctx.check(okn, RN, "walk(): recursion only when self.recursive", "the sub-walk runs although the snapshot is not recursive", loc)
+    # ... and nothing else keeps a recursive walk out of a directory: an entry that is a directory is descended into on every path
+    # (a further condition -- "already seen", a depth limit -- leaves the entries below it out of the snapshot)
+    RDESC = ctx.rule("C10/every-directory-is-descended-into", "in a recursive walk every listed entry whose stat says directory is walked: no path of the per-entry loop with S_ISDIR true and the recursive flag true skips the sub-walk", floor=1)
+    nd, okd, whyd = 0, True, ""
+    for L, b in all_body_paths(paths):
+        c_ = b.conds()
+        isd = next((t for a, t in c_.items() if a.startswith("S_ISDIR(") or ".is_dir(" in a), None)
+        if isd is not True or b.outcome[0] == "raise":
+            continue
+        if c_.get("self.recursive") is False:
+            continue
+        nd += 1
+        sub = any((e.kind == "yield_from" and re.match(r"self\.walk\(", e.text)) or (e.kind == "call" and e.extra.get("func") == "self.walk") for e in b.evs)
+        if not sub:
+            okd, whyd = False, f"a directory entry is not descended into on the path [{b.sig()[:140]}]: everything below it is missing from the snapshot (and reported as deleted / never reported)"
+    ctx.check(okd and nd > 0, RDESC, "walk(): directories are always descended into", whyd or "no path of the per-entry loop descends into a directory", loc)
     # the right paths: an entry is spelled under the directory that was asked for, whatever the (custom) listdir's entries carry
     RPA = ctx.rule("C10/entries-spelled-under-the-listed-directory", "every path the walk builds is join(<the directory it listed, as given>, <entry>.name): a custom listdir (PollingObserverVFS) only supplies names, and the events carry paths under the watched path (instance shared with C19)", floor=1)
     from .c19 import walk_builds_paths_from_root
